@@ -876,7 +876,8 @@ func HashMapOfValueIndex(vm *Thread, hashMap *HashMapOfValue, key value.Value) (
 		// when we reach the start index
 		// all slots are checked
 		if index == startIndex {
-			return -1, value.Undefined
+			// there are no empty slots, reuse a deleted one if there is any
+			return deletedIndex, value.Undefined
 		}
 	}
 }
